@@ -25,7 +25,9 @@ CLAIMED = {
    design_ref="DESIGN.md §6 C14"),
  "C15": dict(
    text="Proof. Per (component, usage form, tx/rx delay) a kernel-checked theorem: for ALL input sequences (every relative timing of producer and consumer, every payload) the hand-over "
-        "monitor (exactly once, in order, unmodified, no send while set, bounded response) never flags on the parsed VHDL of a wrapper around the REAL std.SyncFlag / std.Mailbox.",
+        "monitor (exactly once, in order, unmodified, no send while set, bounded response) never flags on the parsed VHDL of a wrapper around the REAL std.SyncFlag / std.Mailbox. "
+        "For ALL delays: an as-coded Gallina model (Models/Handover.v) is proved, for every tx_delay / rx_delay, payload and input sequence, to hand over exactly once, in order, unmodified, never to overwrite, with exact visibility delays, and to satisfy the monitor "
+        "(C15_exactly_once_all_delays, C15_send_visible_after_tx_delay, C15_model_satisfies_monitor_all_delays ...); each compiled two-context configuration is proved equal to that model.",
    technique="Rocq proof: verified reachability checker on design x safety-monitor product (mcheck_sound) per compiled configuration",
    design_ref="DESIGN.md §6 C15"),
  "C16": dict(
